@@ -1,6 +1,6 @@
 use crate::{
     common::BinaryOp,
-    syn_utils::{expand_self, DropTrailingPlus},
+    syn_utils::{expand_self, paren_qself_without_trait, DropTrailingPlus},
 };
 use proc_macro2::{Span, TokenStream};
 use quote::quote;
@@ -134,7 +134,11 @@ pub fn build_by_item_impl(attr: TokenStream, item_impl: &ItemImpl) -> Result<Tok
     let (this, this_is_ref) = to_ref_elem(this_orig);
     let rhs_orig = to_rhs(s, this_orig);
     let (rhs, rhs_is_ref) = to_ref_elem(&rhs_orig);
-    let g = expand_self(&item_impl.generics, this_orig);
+    let mut g = expand_self(&item_impl.generics, this_orig);
+    // `where <Self>::Assoc: ..` has become `where <X>::Assoc: ..`
+    if let Some(w) = &mut g.where_clause {
+        w.predicates.iter_mut().for_each(paren_qself_without_trait);
+    }
     let (impl_g, _, where_g) = &g.split_for_impl();
 
     let op = Op::from_ident(&s.ident)?;
